@@ -122,6 +122,22 @@ def xsubmitOp (o : Op) : String :=
   let sent := match p.reached with | none => "none" | some l => natList l
   s!"d={showSubmit (submitHelper sizes.length h d.result)} p={showSubmit (submitHelper sizes.length h p.result)} sent={sent} dsaw={bit d.sawCancel} psaw={bit p.sawCancel} dstored={natList d.stored} pstored={natList p.stored} dis={showIs (errOf d.result)} pis={showIs (errOf p.result)} dty={showTy (errOf d.result)} pty={showTy (errOf p.result)}"
 
+/-- a DA call that takes `delay` ms and succeeds, nobody cancels: no deadline covers the handler run in the server
+(`Spec.C16.server_no_handler_deadline`, a regenerated fact), so the delay changes nothing: the call completes as
+`proxiedMidCall … false`; `back` = what the ids the proxied caller got read back as through the proxy -/
+def slowsubmitOp (o : Op) : String :=
+  match o.nat? "delay", o.get? "sizes" with
+  | some ms, some _ =>
+    if ms > 20000 then "bad-op" else
+    let sizes := o.nats "sizes"
+    let h := o.nat "h"
+    let d := directMidCall env sizes false
+    let p := proxiedMidCall env id (maxOf o) sizes false
+    let pr := submitHelper sizes.length h p.result
+    let sent := match p.reached with | none => "none" | some l => natList l
+    s!"d={showSubmit (submitHelper sizes.length h d.result)} p={showSubmit pr} sent={sent} dstored={natList d.stored} pstored={natList p.stored} back={natList (p.stored.take pr.nids)} dis={showIs (errOf d.result)} pis={showIs (errOf p.result)} dty={showTy (errOf d.result)} pty={showTy (errOf p.result)}"
+  | _, _ => "bad-op"
+
 /-- the last error the helper saw while retrieving, direct or proxied -/
 def lastErr (ids : Except GoErr IdsReply) (get : Nat → Nat → Except GoErr Nat) : Option GoErr :=
   match ids with
@@ -167,6 +183,7 @@ def step (_ : Unit) (line : String) : Unit × String :=
     | "retrieve" => retrieveOp o
     | "csubmit" => csubmitOp o
     | "xsubmit" => xsubmitOp o
+    | "slowsubmit" => slowsubmitOp o
     | _ => "bad-op"
   ((), out)
 
